@@ -47,7 +47,8 @@ def floors(tier):
                          "config_field_sets_checked": n["roundtrip"] * 4,
                          "config_multi_field_sets_checked": n["roundtrip"] * 3,
                          "unknown_names_refused": n["roundtrip"],
-                         "fits_run": n["fit"], "fits_returned_and_checked": max(1, n["fit"] // 4)}}
+                         "fits_run": n["fit"], "fits_returned_and_checked": max(1, n["fit"] // 4),
+                         "fits_with_extra_validation": max(1, n["fit"] // 6)}}
 
 
 def setup_worker(ctx):
@@ -177,14 +178,35 @@ def _roundtrip(R, rng, ctx):
         R.samples.append({"kind": "roundtrip", "definition": K.brief_defn(defn), "config": repr(cfg)})
 
 
-def _fit(R, rng, ctx):
+def constant_velocity_defn(rng):
+    """A model that passes FormaK's extra validation (no stationary point of the update map)."""
+    from .. import expr as E
+
+    S = E.S
+    return {
+        "dt": "dt", "state": ["x", "v"], "control": ["a1"], "calibration": [],
+        "model": {"x": ["add", S("x"), ["mul", S("dt"), S("v")]], "v": ["add", S("v"), ["mul", S("dt"), S("a1")]]},
+        "model_as_text": [], "containers": {"state": "set", "control": "set", "calibration": "set"},
+        "calibration_map": {}, "process_noise": {"a1": round(rng.uniform(0.5, 2.0), 2)},
+        "sensors": {"gps": {"r0": S("x")}}, "sensor_noises": {"gps": {"r0": round(rng.uniform(0.5, 2.0), 2)}},
+        "reading_keys": {"gps": "str"}, "n_shared": 0, "family": "constant_velocity",
+    }
+
+
+def _fit(R, rng, ctx, i=0):
     from formak import python
     from formak.exceptions import MinimizationFailure
 
     defn = gen.contractive_program(rng, n_state=(1, 2), n_control=(1, 2), n_calib=(0, 1), n_sensor=(1, 2),
                                    n_reading=(1, 2), depth=1, n_shared=(0, 1), allow_text=False)
+    extra = False
+    if i % 4 == 1:
+        # every Config field at a non-default value, including extra_validation=True
+        defn = constant_velocity_defn(rng)
+        extra = True
+        R.stats.inc("fits_with_extra_validation")
     b = build.Built(defn)
-    cfg = python.Config(common_subexpression_elimination=False,
+    cfg = python.Config(common_subexpression_elimination=False, extra_validation=extra,
                         innovation_filtering=rng.choice([None, 5.0]), max_dt_sec=rng.choice([0.1, 0.5]))
     ad = python.SklearnEKFAdapter.Create(b.ui_model, b.process_noise, b.sensor_models, b.sensor_noises,
                                          b.calibration_map, config=cfg)
@@ -234,7 +256,7 @@ def run_unit(unit, ctx):
     R = K.Result()
     rng = K.unit_rng(ID, ctx["seed"], unit)
     if unit["kind"] == "fit":
-        _fit(R, rng, ctx)
+        _fit(R, rng, ctx, unit["i"])
     else:
         _roundtrip(R, rng, ctx)
     return R.out()
